@@ -1976,11 +1976,11 @@ class DynamicSeedingInstrumentation(transformer.DynamicSeedingInstrumentationAda
     ) -> None:
         node.basic_block[node.before(instr_index + 2)] = (
             self.instructions_generator.generate_instructions(
-                InstrumentationSetupAction.ADD_FIRST_TWO_REVERSED,
+                InstrumentationSetupAction.COPY_FIRST_TWO,
                 InstrumentationMethodCall(
                     self._dynamic_constant_provider,
-                    DynamicConstantProvider.add_value.__name__,
-                    (InstrumentationStackValue.FIRST,),
+                    DynamicConstantProvider.add_concatenated_value.__name__,
+                    (InstrumentationStackValue.FIRST, InstrumentationStackValue.SECOND),
                 ),
                 instr.lineno,
             )
@@ -1999,11 +1999,11 @@ class DynamicSeedingInstrumentation(transformer.DynamicSeedingInstrumentationAda
     ) -> None:
         node.basic_block[node.before(instr_index + 2)] = (
             self.instructions_generator.generate_instructions(
-                InstrumentationSetupAction.ADD_FIRST_TWO,
+                InstrumentationSetupAction.COPY_FIRST_TWO,
                 InstrumentationMethodCall(
                     self._dynamic_constant_provider,
-                    DynamicConstantProvider.add_value.__name__,
-                    (InstrumentationStackValue.FIRST,),
+                    DynamicConstantProvider.add_concatenated_value.__name__,
+                    (InstrumentationStackValue.SECOND, InstrumentationStackValue.FIRST),
                 ),
                 instr.lineno,
             )
